@@ -108,6 +108,14 @@ class ItemsObj:
         self.mapval = mapval
 
 
+class KeyVal:
+    """a dict-literal key that is a symbolic-engine value (an enum member, a tuple): hashable by
+    identity, compared through py_eq at lookup"""
+
+    def __init__(self, val):
+        self.val = val
+
+
 class SuperProxy:
     """super() inside a method: attribute lookup continues after `cls` in the MRO of type(self)"""
 
